@@ -15,7 +15,7 @@ CHECKS = {
     ),
     "C12": dict(
         technique="Lean 4 theorems characterising, for every client handler of the model and lifted to whole entries and histories, the exact recipient set of every output line (iff statements over the membership relation) and the prefix it carries (identity invariant PInv preserved by all handlers); reference monitor over the real code's outputs; correspondence of outputs and recipients between the real ProcessMessage and the model",
-        text="Machine-checked proof that in every reachable state: a channel PRIVMSG/NOTICE is delivered to exactly the other members of that channel (C12_privmsg, C12_privmsg_no_eavesdrop, C12_privmsg_channel_delivered), a private one only to the session owning the target nickname, numeric replies only to the causing session, ERROR only to the closed session, JOIN/PART/KICK/TOPIC/MODE/INVITE notifications to exactly the members of that channel (+ services links), NICK/QUIT/KILL to exactly the sessions sharing a channel with the subject; every relayed line carries nick!user@robust/0x<session id> of the acting session, which no other registered client can carry (C12_sender_identity, C12_no_impersonation); lifted to applyEntry and to every history (C12_entry_client, C12_history). Recipient sets of the services handlers other than PRIVMSG are not classified (partial). On every run the real code's outputs (Data and InterestingFor of every message) are compared with the model's on generated histories, and an independent reference monitor driven by the announced JOIN/PART/KICK/QUIT/NICK events checks the real recipients.",
+        text="Machine-checked proof that in every reachable state: a channel PRIVMSG/NOTICE is delivered to exactly the other members of that channel (C12_privmsg, C12_privmsg_no_eavesdrop, C12_privmsg_channel_delivered), a private one only to the session owning the target nickname, numeric replies only to the causing session, ERROR only to the closed session, JOIN/PART/KICK/TOPIC/MODE/INVITE notifications to exactly the members of that channel (+ services links), NICK/QUIT/KILL to exactly the sessions sharing a channel with the subject; every relayed line carries nick!user@robust/0x<session id> of the acting session, which no other registered client can carry (C12_sender_identity, C12_no_impersonation); lifted to applyEntry and to every history (C12_entry_client, C12_history). The services handlers are classified the same way (ServiceLine, C12_entry_services, C12_history_all). On every run the real code's outputs (Data and InterestingFor of every message) are compared with the model's on generated histories, and an independent reference monitor driven by the announced JOIN/PART/KICK/QUIT/NICK events checks the real recipients.",
         design_ref="DESIGN.md §4 C12",
         note="Trusts: Lean kernel; the hand-written handler models to the extent the differential runs exercise them; GetMessages filters by InterestingFor (exercised in C04/C11 runs). One leak found and repaired (services JOIN/PART announced on all common channels).",
     ),
@@ -39,9 +39,9 @@ CHECKS = {
     ),
     "C14": dict(
         technique="Lean 4 inductive invariant proof over all handlers and all entry types (GInv = Inv + LInv + NInv + VInv), with corollaries spelling out the property; executable twin invB proved to follow from the invariant and compared on every state with an in-package walk over the real indexes",
-        text="Machine-checked proof (C14_reachable, C14_step and corollaries) that after every entry of every well-formed history: nicknames are unique under IRC case mapping and valid, channel names valid and keyed by their lower-cased name, membership is symmetric, no stored channel is empty, every member is a live session reachable by its current nickname, nickless sessions are in no channel and not indexed, no session is left flagged deleted, session creation is refused exactly at the configured limit. The executable predicate invB (proved to follow from the invariant, C14_invB) is evaluated by the driver on every model state and compared with VerifWalk over the real maps after every entry of generated histories (incl. SVSNICK/SVSJOIN/KILL/expiry/case-only nick changes and snapshot round-trips). Five genuine defects found this way were repaired (known_findings.json).",
+        text="Machine-checked proof (C14_reachable, C14_step and corollaries) that after every entry of every well-formed history: nicknames are unique under IRC case mapping and valid, channel names valid and keyed by their lower-cased name, membership is symmetric, no stored channel is empty, every member is a live session reachable by its current nickname, nickless sessions are in no channel and not indexed, no session is left flagged deleted, session creation is refused exactly at the configured limit and only CreateSession entries and the services NICK add sessions (C14_limits_sessions_history); a channel is created only by JOIN, services JOIN and SVSJOIN and only below the configured limit, so the number of channels stays within MaxChannels along every history in which no Config entry lowers the limit below the current count (C14_all_handlers_channel_limit, C14_limits_channels_history; services used to ignore the limit: fixed in 2cf1f68). The executable predicate invB (proved to follow from the invariant, C14_invB) is evaluated by the driver on every model state and compared with VerifWalk over the real maps after every entry of generated histories (incl. SVSNICK/SVSJOIN/KILL/expiry/case-only nick changes and snapshot round-trips). Five genuine defects found this way were repaired (known_findings.json).",
         design_ref="DESIGN.md §4 C14",
-        note="Trusts: Lean kernel; hand-written handler models tied by the differential runs; the channel limit (MaxChannels) is checked dynamically only.",
+        note="Trusts: Lean kernel; hand-written handler models tied by the differential runs; the limits are also checked per entry on the real code (state dumps after every entry of a quarter of the histories).",
     ),
     "C01": dict(
         technique="Lean 4 theorems over facts regenerated from the Go source (every map range on the replicated path classified by body shape; every clock/environment/goroutine use pinned outside the apply path) plus general order-insensitivity lemmas for each shape; the model run with all maps permuted after every entry and the real code run twice on the same histories",
